@@ -163,6 +163,12 @@ func (vc *VC) instr1(in ssa.Instruction, h *Heap) {
 			o := vc.alloc(h, vc.curR, 0, t)
 			vc.store(h, Addr{o, "0", "0"}, t, vc.val(x.X))
 			vc.setVal(x, []string{"(mkiface " + tid + " (mkptr " + o + " 0 0))"})
+			if isString(t) {
+				// the string boxed in the interface value (read back by boxstr(x) in contracts and
+				// related across == on interfaces in ifaceEq)
+				vc.declareRaw("box_str", "(declare-fun box_str (Iface) Str)")
+				vc.assume(implies(vc.curR, eq("(box_str "+vc.val1(x)+")", vc.val1(x.X))))
+			}
 		}
 	case *ssa.TypeAssert:
 		vc.typeAssert(x, h)
@@ -522,6 +528,10 @@ func (vc *VC) ifaceEq(x, y string) string {
 		// dynamic values of pointer type compare by identity
 		vc.declareRaw("ptr_tid", "(declare-fun ptr_tid (Int) Bool)")
 		vc.assume("(=> (and (iface_eq " + x + " " + y + ") (or (= (i_tid " + x + ") 0) (ptr_tid (i_tid " + x + ")))) (= " + x + " " + y + "))")
+		// dynamic values of a string type compare by content (box_str is meaningless, and
+		// unconstrained, for every other dynamic type)
+		vc.declareRaw("box_str", "(declare-fun box_str (Iface) Str)")
+		vc.assume("(=> (iface_eq " + x + " " + y + ") (= (box_str " + x + ") (box_str " + y + ")))")
 	}
 	return "(or (= " + x + " " + y + ") (iface_eq " + x + " " + y + "))"
 }
